@@ -6,9 +6,11 @@
     the dividend, the remainder the width of the divisor.
     The UNSIGNED division called by the Int code is modelled at the value level (Z.div / Z.modulo on eval);
     its limb-level correctness is property C02.
-    Two statements are REFUTED for the code of /repo as it stands (genuine defects, see the _refuted theorems):
-    the sign of the remainder of checked_div_rem_floor(_vartime), and the width of the remainder of
-    div_rem_uint_vartime / rem_uint_vartime when the divisor type is narrower than the dividend type. *)
+    One statement is REFUTED for the code of /repo as it stands (open defect, see the _refuted theorem):
+    the width of the remainder of div_rem_uint_vartime / rem_uint_vartime when the divisor type is narrower
+    than the dividend type.  (The remainder sign of checked_div_rem_floor(_vartime), refuted on the original
+    tree with the witness (-8) div_floor 3 -> r = -1, was repaired in /repo by e95f693: the remainder is now
+    negated by the sign of the divisor, and the full statement below is proved for that code.) *)
 From CB Require Import Model.Limbs Model.AddSub Model.IntArith Model.IntDiv
   Proofs.WordP Proofs.LimbsP Proofs.AddSubP Proofs.IntArithP Proofs.IntDivP Proofs.IntTablesP.
 From Coq Require Import ZArith List Bool String.
@@ -68,13 +70,25 @@ Theorem C14_rem : forall n d, wf n -> wf d -> seval d <> 0 ->
 Proof. exact int_rem_spec. Qed.
 Print Assumptions C14_rem.
 
-(** flooring division by an Int: checked_div_rem_floor(_vartime), checked_div_floor(_vartime).
-    The quotient is the floor ... *)
+(** flooring division by an Int: checked_div_rem_floor(_vartime), checked_div_floor(_vartime):
+    quotient = floor(n / d), remainder = n mod d (sign of the divisor) *)
+Theorem C14_checked_div_rem_floor : forall n d, wf n -> wf d -> n <> [] -> seval d <> 0 ->
+  int_checked_div_rem_floor n d =
+    (if isp_fits (length n) (seval n / seval d) then Some (to_limbs_s (length n) (seval n / seval d)) else None,
+     to_limbs_s (length d) (seval n mod seval d)).
+Proof. exact int_checked_div_rem_floor_spec. Qed.
+Print Assumptions C14_checked_div_rem_floor.
+
 Theorem C14_floor_quotient : forall n d, wf n -> wf d -> n <> [] -> seval d <> 0 ->
   fst (int_checked_div_rem_floor n d) =
     if isp_fits (length n) (seval n / seval d) then Some (to_limbs_s (length n) (seval n / seval d)) else None.
 Proof. exact floor_quotient_spec. Qed.
 Print Assumptions C14_floor_quotient.
+
+Theorem C14_floor_remainder : forall n d, wf n -> wf d -> n <> [] -> seval d <> 0 ->
+  snd (int_checked_div_rem_floor n d) = to_limbs_s (length d) (seval n mod seval d).
+Proof. exact floor_remainder_spec. Qed.
+Print Assumptions C14_floor_remainder.
 
 Theorem C14_checked_div_floor : forall n d, wf n -> wf d -> n <> [] -> seval d <> 0 ->
   int_checked_div_floor n d =
@@ -86,33 +100,6 @@ Theorem C14_floor_quotient_none_iff : forall n d, wf n -> wf d -> n <> [] -> sev
   (isp_fits (length n) (seval n / seval d) = false <-> (2 * seval n = - Bn (length n) /\ seval d = -1)).
 Proof. exact floor_quot_fits_iff. Qed.
 Print Assumptions C14_floor_quotient_none_iff.
-
-(** ... but the remainder is the floor remainder only for a non-negative dividend or an exact division *)
-Theorem C14_floor_remainder_partial : forall n d, wf n -> wf d -> n <> [] -> seval d <> 0 ->
-  0 <= seval n \/ seval n mod seval d = 0 ->
-  snd (int_checked_div_rem_floor n d) = to_limbs_s (length d) (seval n mod seval d).
-Proof. exact floor_remainder_partial. Qed.
-Print Assumptions C14_floor_remainder_partial.
-
-(** GENUINE DEFECT: for a negative dividend and an inexact division the remainder has the wrong sign and
-    n <> q*d + r  (witness: (-8) div_floor 3 gives q = -3, r = -1) *)
-Theorem C14_floor_remainder_refuted :
-  exists n d, wf n /\ wf d /\ seval d <> 0 /\
-    seval (snd (int_checked_div_rem_floor n d)) <> seval n mod seval d /\
-    (match fst (int_checked_div_rem_floor n d) with
-     | Some q => seval n <> seval q * seval d + seval (snd (int_checked_div_rem_floor n d))
-     | None => False end).
-Proof. exact floor_remainder_refuted. Qed.
-Print Assumptions C14_floor_remainder_refuted.
-
-(** the same algorithm with the remainder re-signed by the sign of the divisor (instead of
-    sign(n) xor sign(d)) is the floor division: the one-line repair is proved correct *)
-Theorem C14_floor_repaired_variant : forall n d, wf n -> wf d -> n <> [] -> seval d <> 0 ->
-  int_checked_div_rem_floor_gen true n d =
-    (if isp_fits (length n) (seval n / seval d) then Some (to_limbs_s (length n) (seval n / seval d)) else None,
-     to_limbs_s (length d) (seval n mod seval d)).
-Proof. exact floor_fixed_spec. Qed.
-Print Assumptions C14_floor_repaired_variant.
 
 Theorem C14_floor_remainder_fits : forall n d, wf d -> seval d <> 0 ->
   - Bn (length d) <= 2 * (seval n mod seval d) < Bn (length d).
@@ -137,7 +124,7 @@ Theorem C14_rem_uint_fits_partial : forall n d, wf n -> wf d -> eval d <> 0 -> (
 Proof. exact urem_fits. Qed.
 Print Assumptions C14_rem_uint_fits_partial.
 
-(** GENUINE DEFECT: with a narrower divisor type the remainder can exceed Int<RHS_LIMBS>::MAX and is returned
+(** OPEN DEFECT (finding F14): with a narrower divisor type the remainder can exceed Int<RHS_LIMBS>::MAX and is returned
     reinterpreted (witness: Int<2> 2^64-2 rem Uint<1> 2^64-1 reads back as -2) *)
 Theorem C14_rem_uint_mixed_refuted :
   exists n d, wf n /\ wf d /\ eval d <> 0 /\
@@ -178,13 +165,11 @@ Proof.
 Qed.
 Print Assumptions C14_tables_agree_int_divisor.
 
-(** checked_div_rem_floor: agreement only outside the defect class (negative dividend, inexact division) *)
-Theorem C14_tables_agree_floor_partial : forall dbg n d, wf n -> wf d -> n <> [] ->
-  (eval d <> 0 -> 0 <= seval n \/ seval n mod seval d = 0) ->
+Theorem C14_tables_agree_floor : forall dbg n d, wf n -> wf d -> n <> [] ->
   run_op ops_intdiv_model "sdiv.checked_div_rem_floor" dbg [n; d] =
   run_op ops_intdiv_spec "sdiv.checked_div_rem_floor" dbg [n; d].
-Proof. exact tbl_checked_div_rem_floor_partial. Qed.
-Print Assumptions C14_tables_agree_floor_partial.
+Proof. exact tbl_checked_div_rem_floor. Qed.
+Print Assumptions C14_tables_agree_floor.
 
 Theorem C14_tables_agree_uint_divisor : forall dbg n d, wf n -> wf d -> n <> [] ->
   let M := run_op ops_intdiv_model in let S := run_op ops_intdiv_spec in
@@ -213,7 +198,8 @@ Example C14_nonvacuous :
   int_checked_div_rem [8] [2 ^ 64 - 3] = (Some [2 ^ 64 - 2], [2]) /\
   int_checked_div_rem [2 ^ 64 - 8] [2 ^ 64 - 3] = (Some [2], [2 ^ 64 - 2]) /\
   fst (int_checked_div_rem [0; 2 ^ 63] [MAXW; MAXW]) = None /\
-  fst (int_checked_div_rem_floor [2 ^ 64 - 8] [3]) = Some [2 ^ 64 - 3] /\
-  int_checked_div_rem_floor_gen true [2 ^ 64 - 8] [3] = (Some [2 ^ 64 - 3], [1]) /\
+  int_checked_div_rem_floor [2 ^ 64 - 8] [3] = (Some [2 ^ 64 - 3], [1]) /\
+  int_checked_div_rem_floor [2 ^ 64 - 8] [2 ^ 64 - 3] = (Some [2], [2 ^ 64 - 2]) /\
+  int_checked_div_rem_floor [8] [2 ^ 64 - 3] = (Some [2 ^ 64 - 3], [2 ^ 64 - 1]) /\
   int_div_rem_floor_uint [2 ^ 64 - 8] [3] = ([2 ^ 64 - 3], [1]).
 Proof. vm_compute. repeat split; reflexivity. Qed.
